@@ -38,6 +38,9 @@ type scen struct {
 	// PauseBeforeNear lets a burst finish and the grown pool go idle (not wind down) before "near" is issued
 	PauseBeforeNear time.Duration `json:"pause_before_near,omitempty"`
 	Trials          int           `json:"trials,omitempty"` // idleedge only
+	// Native: runs on the package state built by the package's own init() (pool limit 10; only the idle timeout is
+	// changed through the hook) instead of a fresh state built by the hook
+	Native bool `json:"native,omitempty"`
 }
 
 var elements = []string{"far", "near", "burst", "cancelhead", "idlegap"}
@@ -106,6 +109,9 @@ func scenarios(run *report.Run) []scen {
 	for rep := 0; rep < run.Pick(4, 16); rep++ {
 		res = append(res, scen{Order: []string{"idleedge"}, Callers: 1 + rep%4, Idle: []time.Duration{300, 150, 600, 1000}[rep/4%4] * time.Microsecond, MaxWorkers: 1 + rep%3, Trials: run.Pick(2500, 10000)})
 	}
+	for rep := 0; rep < run.Pick(3, 9); rep++ {
+		res = append(res, scen{Order: []string{"chase"}, Callers: 1, Idle: 3 * time.Second, MaxWorkers: 1 + rep%3, Trials: run.Pick(20000, 200000)})
+	}
 	for rep := 0; rep < run.Pick(2, 8); rep++ {
 		res = append(res, scen{Order: []string{"idleconvoy"}, Callers: 1, Idle: []time.Duration{40, 80, 25, 60}[rep%4] * time.Millisecond, MaxWorkers: 1 + rep%3, Trials: run.Pick(4, 10)})
 	}
@@ -120,7 +126,7 @@ func scenarios(run *report.Run) []scen {
 // idleEdge: see scenarios().
 func idleEdge(sc scen) (fs []tmon.Finding, nFut int, stats map[string]int64, inconclusive string) {
 	stats = map[string]int64{}
-	timeout.VerifReset(sc.Idle, sc.MaxWorkers)
+	setup(sc)
 	mon := tmon.New()
 	rng := rand.New(rand.NewSource(int64(sc.Callers)*7919 + int64(sc.Idle)))
 	started := func(fus []*tmon.Fut, limit time.Duration) bool {
@@ -213,13 +219,91 @@ func idleEdge(sc scen) (fs []tmon.Finding, nFut int, stats map[string]int64, inc
 	return fs, len(mon.Futures()), stats, ""
 }
 
+func setup(sc scen) {
+	if sc.Native {
+		timeout.VerifSetIdle(sc.Idle)
+		return
+	}
+	timeout.VerifReset(sc.Idle, sc.MaxWorkers)
+}
+
+// nativeScenarios run in children that never replace the package state.
+func nativeScenarios(run *report.Run) []scen {
+	var res []scen
+	for _, sc := range scenarios(run) {
+		if sc.MaxWorkers != 10 {
+			continue
+		}
+		switch sc.Order[0] {
+		case "chase", "idleconvoy", "idleedge", "contended":
+		default:
+			if len(res)%3 != 0 && sc.Idle > 200*time.Millisecond {
+				continue
+			}
+		}
+		sc.Native = true
+		res = append(res, sc)
+	}
+	for rep := 0; rep < 3; rep++ {
+		res = append(res, scen{Order: []string{"chase"}, Callers: 1, Idle: 3 * time.Second, MaxWorkers: 10, Trials: run.Pick(20000, 200000), Native: true})
+	}
+	return res
+}
+
+// chase: a goroutine schedules the next call the moment it sees the previous callback run (swept by 0..2 us):
+// its wake-up reaches the only worker while that worker is on its way from the callback back to sleep. With a
+// 3 s idle timeout a wake-up that gets lost there shows as seconds of lateness.
+func chase(sc scen) (fs []tmon.Finding, nFut int, stats map[string]int64, inconclusive string) {
+	stats = map[string]int64{}
+	setup(sc)
+	mon := tmon.New()
+	started := func(f *tmon.Fut) bool {
+		t0 := time.Now()
+		for n := 0; f.Started() == 0; n++ {
+			if n%1024 == 1023 && time.Since(t0) > lateBound+time.Second {
+				return false
+			}
+		}
+		return true
+	}
+	var sink atomic.Int64
+	for tr := 0; tr < sc.Trials; tr++ {
+		first := mon.Call(0, 0, false)
+		if !started(first) {
+			break
+		}
+		for i := 0; i < (tr%128)*4; i++ {
+			sink.Add(1)
+		}
+		second := mon.Call(0, 0, false)
+		stats["chase_trials"]++
+		if !started(second) {
+			break
+		}
+		if tr%16 == 15 { // now and then let the worker really go to sleep
+			time.Sleep(50 * time.Microsecond)
+		}
+	}
+	final, lost := tmon.Drain(60*time.Second + 4*sc.Idle)
+	if !final {
+		return nil, len(mon.Futures()), stats, "drain watchdog after chase trials: " + lost
+	}
+	if lost != "" {
+		fs = append(fs, tmon.Finding{Sig: "timer/pending-without-worker", What: lost})
+	}
+	jf, worst := mon.Judge(lateBound)
+	fs = append(fs, jf...)
+	stats["worst_lateness_us"] = int64(worst / time.Microsecond)
+	return fs, len(mon.Futures()), stats, ""
+}
+
 // idleConvoy: a lock convoy at the moment the last worker gives up for idleness. The harness holds the package
 // lock (hook) while first a caller of Call and then the expiring worker queue up on it; the lock is released
 // with one barging re-lock, which puts the mutex into its FIFO hand-off mode (caller, worker, caller ...).
 // Afterwards the queue invariant must hold and the future must start.
 func idleConvoy(sc scen) (fs []tmon.Finding, nFut int, stats map[string]int64, inconclusive string) {
 	stats = map[string]int64{}
-	timeout.VerifReset(sc.Idle, sc.MaxWorkers)
+	setup(sc)
 	mon := tmon.New()
 	waitStarted := func(f *tmon.Fut, limit time.Duration) bool {
 		t0 := time.Now()
@@ -308,7 +392,7 @@ func idleConvoy(sc scen) (fs []tmon.Finding, nFut int, stats map[string]int64, i
 func contendedWindDown(sc scen) (fs []tmon.Finding, nFut int, stats map[string]int64, inconclusive string) {
 	stats = map[string]int64{}
 	for round := 0; round < 25; round++ {
-		timeout.VerifReset(sc.Idle, sc.MaxWorkers)
+		setup(sc)
 		mon := tmon.New()
 		stop := make(chan struct{})
 		var lost atomic.Value
@@ -386,6 +470,9 @@ func runScenario(sc scen) (fs []tmon.Finding, nFut int, stats map[string]int64, 
 	if len(sc.Order) == 1 && sc.Order[0] == "contended" {
 		return contendedWindDown(sc)
 	}
+	if len(sc.Order) == 1 && sc.Order[0] == "chase" {
+		return chase(sc)
+	}
 	if len(sc.Order) == 1 && sc.Order[0] == "idleconvoy" {
 		return idleConvoy(sc)
 	}
@@ -393,7 +480,7 @@ func runScenario(sc scen) (fs []tmon.Finding, nFut int, stats map[string]int64, 
 		return idleEdge(sc)
 	}
 	stats = map[string]int64{}
-	timeout.VerifReset(sc.Idle, sc.MaxWorkers)
+	setup(sc)
 	mon := tmon.New()
 	var heapErr atomic.Value
 	stop := make(chan struct{})
@@ -567,13 +654,16 @@ func runScenario(sc scen) (fs []tmon.Finding, nFut int, stats map[string]int64, 
 }
 
 func TestChild(t *testing.T) {
-	idx, total, _, ok := shard.Child()
+	idx, total, part, ok := shard.Child()
 	if !ok {
 		t.Skip("not a shard child")
 	}
 	run := report.New("C13", "exploration")
 	res := shard.NewResult()
 	list := scenarios(run)
+	if part == "native" {
+		list = nativeScenarios(run)
+	}
 	if os.Getenv("VERIF_PASS") == "asynctimerchan" {
 		var short []scen
 		for i, s := range list {
@@ -614,6 +704,9 @@ func TestChild(t *testing.T) {
 		}
 		res.Evals += int64(nf)
 		res.Counters["scenarios"]++
+		if sc.Native {
+			res.Counters["scenarios_on_the_package_own_initial_state"]++
+		}
 		res.Counters[fmt.Sprintf("scenarios_idle_%v", sc.Idle)]++
 		for k, v := range stats {
 			if v > res.Maxes[k] {
@@ -642,7 +735,7 @@ func TestChild(t *testing.T) {
 func TestCheck(t *testing.T) {
 	run := report.New("C13", "exploration")
 	defer run.Finish(t)
-	run.Rule("arrival patterns: permutations of {far future (30 s, or 'never' = MaxInt64), near future 20 ms, burst of 50 futures (> pool), cancel the head of the queue, idle gap of 2.5 idle timeouts} (24 orders quick, all 120 thorough) x 1 or 4 concurrent callers x idle timeout 20 ms / 200 ms (/ 5 s thorough) x pool limit 1/2/10, callbacks return at once; between the elements futures that fired or were cancelled already are cancelled again (late / repeated cancels); extra patterns with seven long watchdogs of different deadlines, two of which are cancelled from the middle of the queue, mixed with near futures and bursts. Monitors: every non-cancelled future starts (drain detector on hook state; pending>0 with no worker is final), lateness <= 1.5 s, hook invariant pending>0 => workers>=1 sampled under the package lock, workers reach 0 within (limit+3) idle periods + 2 s and the goroutine census agrees, a Call after the wind-down fires again; contended wind-down rounds: a far future pending, a blocking burst grows the pool to its limit, four goroutines hammer the package lock while the surplus workers leave - one worker must stay. evaluations = futures; distinct = distinct scenario configurations")
+	run.Rule("arrival patterns: permutations of {far future (30 s, or 'never' = MaxInt64), near future 20 ms, burst of 50 futures (> pool), cancel the head of the queue, idle gap of 2.5 idle timeouts} (24 orders quick, all 120 thorough) x 1 or 4 concurrent callers x idle timeout 20 ms / 200 ms (/ 5 s thorough) x pool limit 1/2/10, callbacks return at once; between the elements futures that fired or were cancelled already are cancelled again (late / repeated cancels); extra patterns with seven long watchdogs of different deadlines, two of which are cancelled from the middle of the queue, mixed with near futures and bursts. Monitors: every non-cancelled future starts (drain detector on hook state; pending>0 with no worker is final), lateness <= 1.5 s, hook invariant pending>0 => workers>=1 sampled under the package lock, workers reach 0 within (limit+3) idle periods + 2 s and the goroutine census agrees, a Call after the wind-down fires again; contended wind-down rounds: a far future pending, a blocking burst grows the pool to its limit, four goroutines hammer the package lock while the surplus workers leave - one worker must stay. a third of the 10-worker scenarios and the chase trials (a Call issued the moment the previous callback is seen running, swept by 0-2 us, 3 s idle timeout) also run in children that never replace the package state built by the package's own init(). evaluations = futures; distinct = distinct scenario configurations")
 	run.Assume("lateness and wind-down bounds are two orders of magnitude above the healthy values and guarded by a stall canary (repeat up to 3 times, then inconclusive)")
 
 	if p := os.Getenv("VERIF_REPLAY"); p != "" {
@@ -650,9 +743,18 @@ func TestCheck(t *testing.T) {
 		return
 	}
 	nsh := 2 * runtime.NumCPU() // scenarios mostly sleep
+	var nwg sync.WaitGroup
+	nwg.Add(1)
+	go func() {
+		defer nwg.Done()
+		for c := range shard.Run(run, "TestChild", "native", runtime.NumCPU(), 45*time.Minute) {
+			run.DistinctStr(c)
+		}
+	}()
 	for c := range shard.Run(run, "TestChild", "patterns", nsh, 45*time.Minute) {
 		run.DistinctStr(c)
 	}
+	nwg.Wait()
 }
 
 func replay(run *report.Run, path string) {
